@@ -22,6 +22,7 @@ Probed facts (emitted as Lean data in Gen/C16.lean, decided against the model in
                         (ASCII, UTF-8 two- and three-byte names, `..`, `//`, `%2e%2e`, backslash, NUL, overlong UTF-8):
                         URLDecodeError | HTTPNotFound | the resource name
  * pkgRootNameProbe     `get_resource_name` for the package-ROOT spec `pkg:` (empty docroot), the same tuples, with and without slash
+ * guardProbe           `get_resource_name` for `pkg:` on 9 tuples whose name pkg_resources refuses / accepts as (non-)absolute
  * sourcePathProbe      `FSAssetSource(prefix).get_path(name)` / `PackageAssetSource(pkg, prefix).get_path(name)`: 7 prefixes x 9 names
  * overrideApplyProbe   `PackageOverrides.insert(path, src)` + `filtered_sources(name)`: 6 paths x 11 names; most recent first
  * findResourceProbe    `find_resource_path(name)` for a regular file / a directory / a missing name, filesystem and
@@ -48,6 +49,7 @@ GEN_CONFIGS = [
 ]
 GEN_ASSETS = ['c16probepkg:static/sub/a.css', 'c16probepkg:static2/x y.txt', 'c16probepkg:static', '/abs/dir/\u00fc', 'c16probepkg:staticx/y']
 GEN_QUERIES = [None, [True, [['a', '1'], ['x', '0']]], [False, [['x', '0'], ['a', '1']]]]
+GUARD_TUPLES = [['\\x'], ['\\'], ['C:', 'x'], ['c:\\x'], ['x'], ['C:'], ['a', '\\x'], ['\\x', 'y'], ['1:', 'b', 'c']]
 SRC_PREFIXES = ['/d', '/d/', '/d/e', '/d/e/']
 SRC_NAMES = ['', 'a', 'a/b', '/a', '//a/b', '/index.html', 'a/', '/etc/passwd', 'a.css.gz']
 OV_PATHS = ['', 'static/', 'static/a.css', 'st', 'static', 's/t/']
@@ -234,6 +236,12 @@ def _probe():
                 req.subpath = t
                 prn.append([slash, list(t)] + name_of(view, req))
         out['pkgroot_name'] = prn
+        gp = []
+        for t in GUARD_TUPLES:
+            req = request('/p')
+            req.subpath = tuple(t)
+            gp.append([list(t)] + name_of(view, req))
+        out['guard'] = gp
         from pyramid.config.assets import FSAssetSource, PackageAssetSource, PackageOverrides
         sp_ = []
         for prefix in SRC_PREFIXES:
@@ -285,7 +293,7 @@ def facts(src_root):
         want = os.path.realpath(os.path.join(src_root, 'pyramid', 'static.py'))
         if f.get('module') != want:
             return {'status': 'unknown: the probe imported %s, not the tree under test' % f.get('module')}
-        for k in ('chars', 'elems', 'secure', 'resource_name', 'path_info', 'find_resource', 'register', 'buster_order', 'generate', 'pkgroot_name', 'source_path', 'override_apply'):
+        for k in ('chars', 'elems', 'secure', 'resource_name', 'path_info', 'find_resource', 'register', 'buster_order', 'generate', 'pkgroot_name', 'source_path', 'override_apply', 'guard'):
             if not isinstance(f.get(k), list):
                 return {'status': 'unknown: probe answer lacks %s' % k}
     return f
@@ -325,7 +333,7 @@ def generate(src_root):
     ok = f.get('status') == 'ok'
     summary.clear()
     summary.update({'status': f.get('status'), 'chars': f.get('chars'), 'elems': f.get('elems'),
-                    'entries': {k: len(f[k]) for k in ('secure', 'resource_name', 'path_info', 'find_resource', 'register', 'buster_order', 'generate', 'pkgroot_name', 'source_path', 'override_apply')} if ok else None})
+                    'entries': {k: len(f[k]) for k in ('secure', 'resource_name', 'path_info', 'find_resource', 'register', 'buster_order', 'generate', 'pkgroot_name', 'source_path', 'override_apply', 'guard')} if ok else None})
     g = (lambda k: f[k]) if ok else (lambda k: [])
     L = ['/- GENERATED by extract/c16.py by probing the code of src/pyramid/static.py — do not edit. -/',
          'namespace Pyr.Static.Gen', '',
@@ -373,6 +381,9 @@ def generate(src_root):
          '/-- `(trailing slash?, request.subpath, outcome, name)` of `get_resource_name` for the package-ROOT spec `pkg:` -/',
          'def pkgRootNameProbe : List (Bool × List (List Char) × String × List Char) := [',
          ',\n'.join('  (%s, %s, %s, %s)' % (_lean_bool(sl), _lean_tuple(t), _lean_str(k), _lean_text(n or '')) for sl, t, k, n in g('pkgroot_name')), ']', '',
+         '/-- `(request.subpath, outcome, name)` of `get_resource_name` for `pkg:` on names pkg_resources refuses as absolute (fbf36b3) -/',
+         'def guardProbe : List (List (List Char) × String × List Char) := [',
+         ',\n'.join('  (%s, %s, %s)' % (_lean_tuple(t), _lean_str(k), _lean_text(n or '')) for t, k, n in g('guard')), ']', '',
          '/-- `(package source?, prefix, name, get_path(name))` of FSAssetSource / PackageAssetSource -/',
          'def sourcePathProbe : List (Bool × List Char × List Char × List Char) := [',
          ',\n'.join('  (%s, %s, %s, %s)' % (_lean_bool(k), _lean_text(pf), _lean_text(nm), _lean_text(r)) for k, pf, nm, r in g('source_path')), ']', '',
